@@ -133,7 +133,8 @@ def run(repo: Repo, rep: Report) -> None:
     rep.rule("ENC-S", "variable-group division posts the reference root/rank/tree-edge/size-accounting schema; the border form ties each border flag to 'different group ids' or uses the native operator (deviations triaged by projection)")
     rep.rule("ALG-4D", "grid/border form: the inner frame is dualised so that each border variable lies on the edge between the two cells it separates")
     rep.saw(GRAPH, "_division_connected_variable_groups")
-    size_cases = lambda n: [None, 2, [None] * n, [2] + [None] * (n - 1), [1] * n, [n] + [None] * (n - 1), "var", "varlist", "array"]  # noqa: E731
+    size_cases = lambda n: [None, 2, [None] * n, [2] + [None] * (n - 1), [1] * n, [n] + [None] * (n - 1), [1] + [None] * (n - 1),  # noqa: E731
+                            "var", "varlist", "array"]
     # ---- without borders -----------------------------------------------------------------------
     deviating = []
     xitems: List[Any] = []
@@ -200,7 +201,7 @@ def run(repo: Repo, rep: Report) -> None:
         n_ok = 0
         try:
             for gname, n, edges in SMALL:
-                for sizes in ([None] * n, [2] + [None] * (n - 1), [1] * n):
+                for sizes in ([None] * n, [2] + [None] * (n - 1), [1] * n, [1] + [None] * (n - 1)):
                     inst = Instance(repo, div=native)
                     brd = inst.user_bools(len(edges), "B")
                     g = inst.w.graph(n, edges)
